@@ -110,9 +110,8 @@ func (t *Trace) Thread(tid int) []Syscall {
 // Main returns the calls of the main thread.
 func (t *Trace) Main() []Syscall { return t.Thread(t.MainTid) }
 
-// Tampered returns the calls strace interfered with: error-injected ones, and calls that
-// never returned on a thread that was killed (the victim of signal injection is the one
-// whose ordinal equals the injected count; see HitAt).
+// Tampered returns the calls whose result strace replaced (error injection; the log line
+// carries "(INJECTED)").  The victim of a signal injection is found with HitAt.
 func (t *Trace) Tampered() []Syscall {
 	var out []Syscall
 	for _, c := range t.Calls {
